@@ -63,7 +63,7 @@ CELLS = [([4.0, 4.0, 4.0, 90, 90, 90], "P"), ([4.0, 4.0, 4.0, 90, 90, 90], "F"),
          ([4.0, 5.0, 6.0, 90, 90, 90], "A"), ([4.0, 5.0, 6.0, 90, 90, 90], "B"), ([4.0, 5.0, 6.0, 90, 90, 90], "C"),
          ([3.0, 3.0, 5.0, 90, 90, 120], "P"), ([4.8, 4.8, 13.0, 90, 90, 120], "R"), ([5.1, 6.2, 7.3, 90, 100, 90], "P"),
          ([5.1, 6.2, 7.3, 90, 100, 90], "C"), ([5.0, 5.0, 5.0, 80, 80, 80], "P"), ([3.1, 4.2, 7.3, 62, 71, 118], "P"),
-         ([30.0, 2.0, 30.0, 90, 90, 90], "P"), ([3.0, 4.0, 5.0, 75, 85, 95], "I")]
+         ([30.0, 2.0, 30.0, 90, 90, 90], "P"), ([3.0, 4.0, 5.0, 75, 85, 95], "I"), ([4.0, 4.0, 4.01, 90, 90, 90], "P")]
 
 
 def brute(uc, cell, sym, dsmax):
@@ -116,11 +116,27 @@ def b_gethkls(ctx):
                 if abs(ds - want.get(tuple(hkl), ds)) > 1e-9:
                     fails.append(dict(name="listed d* is not |B.hkl|", case=tag, hkl=list(hkl)))
                     break
-            # rings
-            tol = 0.001
+            # rings: several tolerances, also one after the other on the same object (the tolerance of this call is the one that counts)
             if not want:
                 continue
             u2 = uc.unitcell(cell, sym)
+            for tol in (0.001, 0.0001, 0.004):
+              u2.makerings(dsmax, tol)
+              rd = u2.ringds
+              allh = [tuple(h) for d in rd for h in u2.ringhkls[d]]
+              if any(rd[i] >= rd[i + 1] for i in range(len(rd) - 1)):
+                  fails.append(dict(name="ring d* not ascending", case=tag, tol=tol))
+              if sorted(allh) != sorted(tuple(p[1]) for p in u2.peaks):
+                  fails.append(dict(name="rings do not partition the reflection list", case=tag, tol=tol))
+              for k, d in enumerate(rd):
+                  dss = sorted(u2.ds(h) for h in u2.ringhkls[d])
+                  if any(x - d >= tol for x in dss):
+                      fails.append(dict(name="a ring member is tol or more away from the ring's first member", case=tag, tol=tol))
+                      break
+                  if k + 1 < len(rd) and rd[k + 1] - d < tol:
+                      fails.append(dict(name="a new ring starts closer than tol to the start of the previous ring", case=tag, tol=tol))
+                      break
+            tol = 0.001
             u2.makerings(dsmax, tol)
             rd = u2.ringds
             allh = [tuple(h) for d in rd for h in u2.ringhkls[d]]
@@ -137,7 +153,7 @@ def b_gethkls(ctx):
             if len(fails) > 8:
                 break
     return dict(evaluations=ev, distinct_nontrivial=max(2, nontrivial), samples=samples, failures=fails[:10],
-                rule="14 cells (all centrings, orthogonal and oblique axes, one very anisotropic) x d* limits; non-trivial = oblique cell")
+                rule="15 cells (all centrings, a pseudo-cubic one with near-coincident rings, orthogonal and oblique axes, one very anisotropic) x d* limits; non-trivial = oblique cell")
 
 
 def gen_rings_symbolic(ctx):
@@ -151,12 +167,14 @@ def gen_rings_symbolic(ctx):
     tr = ST.Tracer(max_paths=64)
     tr.assume = req
 
-    class Fake(object):
-        pass
+    import copy
+    template = uc.unitcell([4.0, 4.0, 4.0, 90.0, 90.0, 90.0], "P")      # built before the module is shimmed
+
     def run():
-        f = Fake()
+        # a real unitcell object (every attribute the method may consult has its constructor value), only its peak list is symbolic
+        f = copy.copy(template)
         f.gethkls = lambda lim: [[ST.S(ds[i]), (i, 0, 0)] for i in range(n)]
-        uc.unitcell.makerings(f, 1.0, ST.S(tol))
+        f.makerings(1.0, ST.S(tol))
         return f
     with ST.shimmed(uc, extra={"abs": abs}):
         paths = tr.run(lambda: run(), lambda: ((), {}))
